@@ -116,6 +116,18 @@ def generate(g, tier):
             files = {P('main'): f'REPEAT 2\n    START a\nSTART a\nSTRING end', P('a'): 'START b\nSTRING in-a', P('b'): 'STRING in-b'}
             cases.append(dict(op='compile_file', file=P('main'), files=files,
                               meta=dict(family='history-none', exp=['ok', ['STRING in-b', 'STRING in-a'] * 3 + ['STRING end']], names=None)))
+    # files with NO code at all (zero bytes, blank lines, white space only) are files like any other: imported again and again, reached
+    # along two paths, imported in a loop — never a cycle; and a file that has nothing but an import of such a file
+    for empty in ('', '\n', '\n\n\n', '   \n\t\n', ' '):
+        for kw1 in ('START', 'STARTENV', 'STARTCODE'):
+            kw2 = r.choice(['START', 'STARTENV', 'STARTCODE'])
+            files = {P('main'): f'STRING m0\n{kw1} e\nSTRING m1\n{kw2} e\nSTRING m2\n{kw1} e\nSTRING end', P('e'): empty}
+            cases.append(dict(op='compile_file', file=P('main'), files=files, meta=dict(family='empty-file-twice', exp=['ok', ['STRING m0', 'STRING m1', 'STRING m2', 'STRING end']], names=None)))
+            files = {P('main'): f'{kw1} a\n{kw2} b\nSTRING end', P('a'): f'STRING in-a\n{kw1} e', P('b'): f'STRING in-b\n{kw2} e\n{kw1} e', P('e'): empty}
+            outs = (['STRING in-a'] if kw1 != 'STARTENV' else []) + (['STRING in-b'] if kw2 != 'STARTENV' else []) + ['STRING end']
+            cases.append(dict(op='compile_file', file=P('main'), files=files, meta=dict(family='empty-file-diamond', exp=['ok', outs], names=None)))
+            files = {P('main'): f'REPEAT 3\n    {kw1} e\n    STRING it\nFUNC f\n    {kw2} only\nRUN f\nRUN f\nSTRING end', P('e'): empty, P('only'): f'{kw1} e'}
+            cases.append(dict(op='compile_file', file=P('main'), files=files, meta=dict(family='empty-file-loop', exp=['ok', ['STRING it'] * 3 + ['STRING end']], names=None)))
     # functions that cross files: a function of a file that is still being compiled, called to completion from a file it
     # imported, leaves that first file live; a function body runs as the file that DEFINED it (the latest definition's file)
     for d in ('proj', 'proj/sub'):
